@@ -2,6 +2,8 @@ package props
 
 import (
 	"fmt"
+	"sort"
+	"strings"
 
 	"github.com/elliotchance/gedcom/v39"
 
@@ -15,7 +17,7 @@ func c09N(tier string) int {
 	if tier == "thorough" {
 		return 2000000
 	}
-	return 20000
+	return 100000
 }
 
 func init() {
@@ -318,6 +320,76 @@ func c09Nodes(c *fw.Ctx, k int) {
 	}
 }
 
+// c09Canon: canonical text of a tree that ignores the order of children; ok is
+// false when the tree holds a node whose equality the harness does not model
+// (anything but plain nodes, places, and an EVEN or RESI root), or a DATE.
+func c09Canon(n gedcom.Node, root bool) (string, bool) {
+	switch n.(type) {
+	case *gedcom.SimpleNode, *gedcom.PlaceNode:
+	case *gedcom.EventNode, *gedcom.ResidenceNode:
+		if !root {
+			return "", false
+		}
+	default:
+		return "", false
+	}
+	if n.Tag().Is(gedcom.TagDate) {
+		return "", false
+	}
+	var kids []string
+	for _, k := range n.Nodes() {
+		ks, ok := c09Canon(k, false)
+		if !ok {
+			return "", false
+		}
+		kids = append(kids, ks)
+	}
+	sort.Strings(kids)
+	return n.Tag().Tag() + "\x00" + n.Value() + "\x00" + n.Pointer() + "{" + strings.Join(kids, "\x01") + "}", true
+}
+
+// c09RefEqual decides Equals(a, b) independently of the library where it can:
+// plain nodes compare their own line; an undated EVEN compares value and
+// children (order ignored); an undated RESI compares its places.
+func c09RefEqual(a, b gedcom.Node) (equal, known bool) {
+	ca, oka := c09Canon(a, true)
+	cb, okb := c09Canon(b, true)
+	if !oka || !okb {
+		return false, false
+	}
+	switch a.(type) {
+	case *gedcom.SimpleNode, *gedcom.PlaceNode:
+		return a.Tag().Is(b.Tag()) && a.Value() == b.Value() && a.Pointer() == b.Pointer(), true
+	case *gedcom.EventNode:
+		if _, ok := b.(*gedcom.EventNode); !ok {
+			return false, true
+		}
+		// value and children; the pointer of the event itself is not compared
+		return a.Value() == b.Value() && ca[strings.Index(ca, "{"):] == cb[strings.Index(cb, "{"):], true
+	case *gedcom.ResidenceNode:
+		if _, ok := b.(*gedcom.ResidenceNode); !ok {
+			return false, true
+		}
+		var pa, pb []string
+		for _, k := range a.Nodes() {
+			if k.Tag().Is(gedcom.TagPlace) {
+				s, _ := c09Canon(k, false)
+				pa = append(pa, s)
+			}
+		}
+		for _, k := range b.Nodes() {
+			if k.Tag().Is(gedcom.TagPlace) {
+				s, _ := c09Canon(k, false)
+				pb = append(pb, s)
+			}
+		}
+		sort.Strings(pa)
+		sort.Strings(pb)
+		return strings.Join(pa, "\x02") == strings.Join(pb, "\x02"), true
+	}
+	return false, false
+}
+
 type c09Event struct {
 	left, right, merged gedcom.Node
 }
@@ -340,6 +412,33 @@ func c09Slices(c *fw.Ctx, k int) {
 		return ns
 	}
 	left, right := mk(), mk()
+	// pinned shapes (equality merge function): elements whose kind-specific
+	// equality looks at their children - an undated EVEN, an undated RESI -
+	// with duplicate children on the left and a different child on the right.
+	// They are NOT equal and must not be merged into one element.
+	if k%3 == 0 && k/3 < 4 {
+		pin := func(text string) gedcom.Node {
+			d, err := gedcom.NewDocumentFromString(text)
+			if err != nil || len(d.Nodes()) == 0 {
+				return nil
+			}
+			return d.Nodes()[0]
+		}
+		var l, rr gedcom.Node
+		switch k / 3 {
+		case 0:
+			l, rr = pin("0 EVEN v\n1 _X a\n1 _X a\n"), pin("0 EVEN v\n1 _X a\n1 _X b\n")
+		case 1:
+			l, rr = pin("0 EVEN v\n1 _X a\n1 _X b\n"), pin("0 EVEN v\n1 _X a\n1 _X a\n")
+		case 2:
+			l, rr = pin("0 RESI\n1 PLAC p\n1 PLAC p\n"), pin("0 RESI\n1 PLAC p\n1 PLAC q\n")
+		case 3:
+			l, rr = pin("0 EVEN v\n1 NOTE n\n2 _X a\n2 _X a\n"), pin("0 EVEN v\n1 NOTE n\n2 _X a\n2 _X c\n")
+		}
+		if l != nil && rr != nil {
+			left, right = append(gedcom.Nodes{l}, left...), append(gedcom.Nodes{rr}, right...)
+		}
+	}
 	// overlap: copies of left elements (edited or pruned) on the right, duplicates too
 	for _, l := range left {
 		if r.Bool() {
@@ -377,6 +476,17 @@ func c09Slices(c *fw.Ctx, k int) {
 		c.Count("merge-fn-calls", 1)
 		if !gedcom.IsNil(m) {
 			c.Count("merge-fn-successes", 1)
+		}
+		// Where equality can be decided without the library (date-free trees of
+		// plain nodes, undated EVEN/RESI over such trees) the equality merge
+		// function must only merge what is equal.
+		if fnKind == "equality" && !gedcom.IsNil(m) {
+			if eq, known := c09RefEqual(l, rr); known {
+				c.Count("merges-checked-against-reference-equality", 1)
+				if !eq {
+					c.Violation("merged-unequal-nodes:MergeNodeSlices:"+l.Tag().Tag(), fmt.Sprintf("the equality merge function merged two elements that are not equal:\n%s---\n%s", c07Text(l), c07Text(rr)), payload)
+				}
+			}
 		}
 		log = append(log, c09Event{l, rr, m})
 		return m
